@@ -129,6 +129,14 @@ static std::string mp_body(FuzzedDataProvider &fdp, std::string const &boundary)
 }
 static const char *URIS[] = {"/sync", "/async", "/up", "/up?f=raw", "/up?f=mp", "/up?f=plain", "/up?f=mp&fm=10", "/up?f=raw&cl=10", "/up?f=mp&ml=30", "/up?abort=1", "/nomount", "/sync/a/b", "/up?f=mp&bs=1", "/up?f=raw&bs=3"};
 
+// Cookie header values from a small grammar of well-formed and malformed pairs (quoted strings open or closed, separators in odd
+// places, empty names, '@'-style junk, comments): the request cookie parser runs in the event loop thread for all three front-ends
+static std::string gen_cookie(FuzzedDataProvider &fdp) {
+    static const char *pieces[] = {"a=b", "name=\"quoted; v\"", "=x", "a=@x", "\"", "=\"", "a=\"open", "; ", ", ", ";", "=", "$Version=1", "$Path=\"/\"", "b=c", "(\")", "@", "x=\"\\\"\"", "\\", " ", "k=v;k2=\"v2\",k3=v3", "\"; b=c"};
+    std::string c; int n = fdp.ConsumeIntegralInRange<int>(1, 6);
+    for (int i = 0; i < n; i++) { int k = fdp.ConsumeIntegralInRange<int>(0, 22); c += k < 21 ? std::string(pieces[k]) : fdp.ConsumeRandomLengthString(8); }
+    return c;
+}
 static std::string build_request_meta(FuzzedDataProvider &fdp, std::string const &tag, std::string &script, std::string &query) {
     std::string uri = URIS[fdp.ConsumeIntegralInRange<int>(0, 13)];
     size_t q = uri.find('?');
@@ -189,7 +197,7 @@ static std::string build_http(FuzzedDataProvider &fdp, std::string const &tag) {
             case 2: out += "X-B: (comment\r\n"; break;
             case 3: out += "X-C: v\r\n folded\r\n"; break;
             case 4: out += fdp.ConsumeRandomLengthString(40) + "\r\n"; break;
-            case 5: out += "Cookie: " + fdp.ConsumeRandomLengthString(40) + "\r\n"; break;
+            case 5: out += "Cookie: " + (fdp.ConsumeBool() ? gen_cookie(fdp) : fdp.ConsumeRandomLengthString(40)) + "\r\n"; break;
             case 6: out += "X-Long: " + std::string((size_t)fdp.ConsumeIntegralInRange<int>(0, 40000), 'h') + "\r\n"; break;
             default: out += "Accept-Encoding: gzip\r\n"; break;
             }
@@ -218,6 +226,7 @@ static std::string build_scgi(FuzzedDataProvider &fdp, std::string const &tag) {
     if (!ctype.empty()) add("CONTENT_TYPE", ctype);
     int extra = fdp.ConsumeIntegralInRange<int>(0, 3);
     for (int i = 0; i < extra; i++) add("HTTP_X" + std::to_string(i), fdp.ConsumeRandomLengthString(fdp.ConsumeBool() ? 30 : 3000));
+    if (fdp.ConsumeIntegralInRange<int>(0, 3) == 1) add("HTTP_COOKIE", gen_cookie(fdp));
     std::string lentxt;
     switch (fdp.ConsumeIntegralInRange<int>(0, 9)) {
     case 0: lentxt = std::to_string(blk.size() + 1); break; case 1: lentxt = blk.size() ? std::to_string(blk.size() - 1) : "0"; break;
@@ -236,6 +245,7 @@ static std::string build_fcgi(FuzzedDataProvider &fdp, std::string const &tag) {
     typedef std::vector<std::pair<std::string, std::string>> Pairs;
     Pairs env = {{"CONTENT_LENGTH", pick_cl(fdp, body.size())}, {"REQUEST_METHOD", "POST"}, {"SCRIPT_NAME", script}, {"PATH_INFO", ""}, {"QUERY_STRING", query},
                  {"CONTENT_TYPE", fdp.ConsumeBool() ? "text/plain" : "application/x-www-form-urlencoded"}};
+    if (fdp.ConsumeIntegralInRange<int>(0, 3) == 1) env.push_back({"HTTP_COOKIE", gen_cookie(fdp)});
     std::string params = vc::fcgi_pairs(env);
     int id = fdp.ConsumeIntegralInRange<int>(0, 3);
     if (fdp.ConsumeIntegralInRange<int>(0, 9) == 1) {
